@@ -161,6 +161,10 @@ def install_world(schema, holder):
     def resolver(root, ctx, info, **args):
         holder.calls += 1
         w = holder.world
+        declared = {a.python_name for a in info.field_definition.arguments}
+        if not set(args) <= declared:
+            # fail loudly: keyword arguments this field does not declare (stale per-node caches would show up here)
+            raise WorldError("undeclared keyword arguments %s for %s.%s" % (sorted(set(args) - declared), info.parent_type.name, info.field_definition.name))
         o = w.outcome(info.parent_type.name, info.field_definition.name, ty_of(info.field_definition.type),
                       info.path, canon_args(args))
         if o[0] == "err":
